@@ -37,6 +37,8 @@ def run(ctx, tier, res, tag=''):
     sites = scan(mod)
     n_wire = 0
     per_fn_ord = {}
+    unit_lib = {src: lib for (lib, src) in ctx.units}
+    sites = sorted(sites, key=lambda x: ((FC.rel(x['loc'][0]) if x['loc'] else '?'), x['loc'][1] if x['loc'] else 0))
     for s in sites:
         res.count('memory access sites analysed' + tag)
         loc = s['loc']
@@ -52,10 +54,13 @@ def run(ctx, tier, res, tag=''):
             res.count('typed accesses behind a run-time alignment test (accepted)' + tag)
             continue
         if s['align'] > s['guarantee']:
-            # identified by function, access kind and type (not by file: a function may move to another unit)
-            k = (s['fn'], s['kind'], s['width'])
+            # identified by library, access kind and type, and its rank among those (not by file or function: moving the
+            # same typed access into a helper or another unit does not make it a new finding; one more site does)
+            relf = FC.rel(loc[0]) if loc else '?'
+            lib = unit_lib.get(relf, 'custom' if '/custom/' in relf else 'core')
+            k = (lib, s['kind'], s['width'])
             per_fn_ord[k] = per_fn_ord.get(k, 0) + 1
-            key = '%s:%s:%s#%d' % (s['fn'], s['kind'], s['width'].replace(' ', '_'), per_fn_ord[k])
+            key = '%s:%s:%s#%d' % (lib, s['kind'], s['width'].replace(' ', '_'), per_fn_ord[k])
             if s['kind'] in ('argument', 'stored-pointer', 'returned-pointer'):
                 res.violation(key + tag, '%s: %s promises %d-byte alignment to its user, but the pointer\'s provenance only guarantees %d'
                               % (where, s['width'], s['align'], s['guarantee']))
